@@ -44,34 +44,105 @@ let parse_ev s = match String.split_on_char ':' s with
   | _ -> failwith "bad event"
 let parse_evs s = if s = "-" then [] else List.map parse_ev (String.split_on_char ',' s)
 
+(* ---- overlapping calls (PAR a x b y): the second call is issued while the first is inside its
+   underlying call.  Model side: the sequential model on SOME linearisation (a;b or b;a), or, for
+   two OpenDB of one name, the two-critical-section model open_overlap (the code as it is).
+   Spec side: CachedProducerSpec.conc_ok (counting clauses) on the implementation's observation. *)
+type item = Seq of cop | Par of string list * string list
+
+let parse_item t = match t with
+  | ["PAR"; a; x; b; y] -> Par ([a; x], [b; y])
+  | _ -> Seq (parse_op t)
+
+(* by-name close/drop act on the handle that was newest when the call was issued *)
+let resolve s t = match t with
+  | ["C"; n] -> (match newest_handle (n_of_tok n) s.handles with Some u -> CCloseH u | None -> CClose (n_of_tok n))
+  | ["D"; n] -> (match newest_handle (n_of_tok n) s.handles with Some u -> CDropH u | None -> CDrop (n_of_tok n))
+  | _ -> parse_op t
+
+let name_of s o = match o with
+  | COpen (n, _) | CClose n | CDrop n -> n
+  | CCloseH u | CDropH u -> (match alookup u s.handles with Some n -> n | None -> n_of_tok "999999")
+let kcall s o r = match o with
+  | COpen _ -> KOpen (name_of s o, r)
+  | CClose _ | CCloseH _ -> KClose (name_of s o, r)
+  | CDrop _ | CDropH _ -> KDrop (name_of s o, r)
+
+let sort_evs l = List.sort compare (List.map ev_tok l)
+
 let eval inp obs =
   match split_on ";" inp with
   | [ctor] :: ops ->
-    let ops = List.map parse_op (List.filter (fun o -> o <> []) ops) in
-    let s0 = if ctor = "A" then wrap_all else wrap in
-    let s = ref s0 and acc = ref [] and mtrace = ref [] in
-    List.iter (fun o ->
-      let ((s', r), ev) = cstep !s o in
-      s := s'; acc := [res_tok r; evs_tok ev] :: !acc; mtrace := ((o, r), ev) :: !mtrace) ops;
-    let model_s = String.concat " " (List.concat_map (fun l -> ";" :: l) (List.rev !acc)) in
-    let by_name = List.for_all by_name_op ops in
-    (* the implementation's trace, parsed back *)
+    let items = List.map parse_item (List.filter (fun o -> o <> []) ops) in
+    let has_par = List.exists (function Par _ -> true | _ -> false) items in
+    let s0 = if String.length ctor > 0 && ctor.[0] = 'A' then wrap_all else wrap in
     let impl_groups = List.filter (fun g -> g <> []) (split_on ";" obs) in
-    let impl_trace =
-      (try
-        if List.length impl_groups <> List.length ops then None else
-        Some (List.map2 (fun o g -> match g with
-          | [r; e] -> (match parse_res r with Some r -> ((o, r), parse_evs e) | None -> failwith "res")
-          | _ -> failwith "group") ops impl_groups)
-      with _ -> None) in
-    let spec_ok = if not by_name then None else
-      (match impl_trace with None -> Some false | Some tr -> Some (trace_ok tr)) in
-    { default_verdict with
-      model_obs = tokens model_s;
-      spec_ok = spec_ok;
-      model_spec_ok = (not by_name) || trace_ok (List.rev !mtrace);
-      nontrivial = List.exists (fun ((_, _), ev) -> List.exists (function UClose _ -> true | _ -> false) ev) !mtrace;
-      note = (match spec_ok with Some false -> "trace violates CachedProducerSpec.trace_ok" | _ -> "") }
+    let impl_arr = Array.of_list impl_groups in
+    let s = ref s0 and acc = ref [] and mtrace = ref [] and mgroups = ref [] and igroups = ref [] in
+    let iok = ref (Array.length impl_arr = List.length items) in
+    List.iteri (fun i it ->
+      let ig = if i < Array.length impl_arr then impl_arr.(i) else [] in
+      match it with
+      | Seq o ->
+        let ((s', r), ev) = cstep !s o in
+        (match ig with
+         | [r'; e'] -> (match parse_res r' with
+             | Some ri -> (try igroups := ([kcall !s o ri], parse_evs e') :: !igroups with _ -> iok := false)
+             | None -> iok := false)
+         | _ -> iok := false);
+        mgroups := ([kcall !s o r], ev) :: !mgroups;
+        s := s'; acc := [res_tok r; evs_tok ev] :: !acc; mtrace := ((o, r), ev) :: !mtrace
+      | Par (ta, tb) ->
+        let a = resolve !s ta and b = resolve !s tb in
+        let lin x y = let ((s1, r1), e1) = cstep !s x in let ((s2, r2), e2) = cstep s1 y in (s2, r1, r2, e1 @ e2) in
+        let c1 = (let (s2, r1, r2, e) = lin a b in (s2, r1, r2, e)) in
+        let c2 = (let (s2, rb, ra, e) = lin b a in (s2, ra, rb, e)) in
+        let c3 = (match a, b with
+          | COpen (n, false), COpen (n', false) when n = n' ->
+            let (((s2, r1), r2), e) = open_overlap n !s in [(s2, r1, r2, e)]
+          | _ -> []) in
+        let cands = [c1; c2] @ c3 in
+        let matches (_, r1, r2, e) = (match ig with
+          | ["par"; i1; i2; ie] -> i1 = res_tok r1 && i2 = res_tok r2 &&
+              (try List.sort compare (if ie = "-" then [] else String.split_on_char ',' ie) = sort_evs e with _ -> false)
+          | _ -> false) in
+        let (s2, r1, r2, e) = (try List.find matches cands with Not_found -> c1) in
+        let etok = (match ig with ["par"; _; _; ie] when matches (s2, r1, r2, e) -> ie | _ -> evs_tok e) in
+        (match ig with
+         | ["par"; i1; i2; ie] -> (match parse_res i1, parse_res i2 with
+             | Some p1, Some p2 -> (try igroups := ([kcall !s a p1; kcall !s b p2], parse_evs ie) :: !igroups with _ -> iok := false)
+             | _ -> iok := false)
+         | _ -> iok := false);
+        mgroups := ([kcall !s a r1; kcall !s b r2], e) :: !mgroups;
+        s := s2; acc := ["par"; res_tok r1; res_tok r2; etok] :: !acc) items;
+    let model_s = String.concat " " (List.concat_map (fun l -> ";" :: l) (List.rev !acc)) in
+    if has_par then begin
+      let spec_ok = Some (!iok && conc_ok (List.rev !igroups)) in
+      { default_verdict with
+        model_obs = tokens model_s;
+        spec_ok = spec_ok;
+        model_spec_ok = true;   (* the model may follow open_overlap (code as it is): judged by spec_ok on impl *)
+        nontrivial = true;
+        note = (match spec_ok with Some false -> "overlapping calls violate CachedProducerSpec.conc_ok (counting clauses)" | _ -> "") }
+    end else begin
+      let ops = List.map (function Seq o -> o | Par _ -> failwith "par") items in
+      let by_name = List.for_all by_name_op ops in
+      let impl_trace =
+        (try
+          if List.length impl_groups <> List.length ops then None else
+          Some (List.map2 (fun o g -> match g with
+            | [r; e] -> (match parse_res r with Some r -> ((o, r), parse_evs e) | None -> failwith "res")
+            | _ -> failwith "group") ops impl_groups)
+        with _ -> None) in
+      let spec_ok = if not by_name then None else
+        (match impl_trace with None -> Some false | Some tr -> Some (trace_ok tr && conc_ok (List.rev !igroups) && !iok)) in
+      { default_verdict with
+        model_obs = tokens model_s;
+        spec_ok = spec_ok;
+        model_spec_ok = (not by_name) || (trace_ok (List.rev !mtrace) && conc_ok (List.rev !mgroups));
+        nontrivial = List.exists (fun ((_, _), ev) -> List.exists (function UClose _ -> true | _ -> false) ev) !mtrace;
+        note = (match spec_ok with Some false -> "trace violates CachedProducerSpec.trace_ok / conc_ok" | _ -> "") }
+    end
   | _ -> failwith "bad case"
 
 let () = run eval
